@@ -81,6 +81,36 @@ func findVar(f *ast.File, name string) ast.Expr {
 	return nil
 }
 
+// canonicalRecv: the name the fact extractors and translator configurations use for the receiver of a method
+// of each type (the names in the source when they were written). The receiver of a method that is looked up
+// is renamed to it, so that renaming a receiver in the source - a harmless rewrite - changes no extracted
+// text (facts render calls as text: `m.Uninstall(ctx,pluginName)`).
+var canonicalRecv = map[string]string{
+	"CLIManager": "m", "CLIPlugin": "p", "FileCache": "c", "repositoryClient": "c", "PluginSigner": "s",
+	"pluginPrimitiveSigner": "s", "GenericSigner": "s", "verifier": "v", "OCIDocument": "policyDoc",
+	"BlobDocument": "policyDoc", "OCITrustPolicy": "t", "BlobTrustPolicy": "t", "x509TrustStore": "trustStore",
+	"SignatureVerification": "signatureVerification", "LimitedWriter": "l", "execCommander": "c",
+	"RequestError": "e", "SigningKeys": "s", "sysFS": "s",
+}
+
+func canonicalReceiver(fd *ast.FuncDecl, recv string) {
+	want, ok := canonicalRecv[recv]
+	if !ok || fd.Recv == nil || len(fd.Recv.List) != 1 || len(fd.Recv.List[0].Names) != 1 {
+		return
+	}
+	rid := fd.Recv.List[0].Names[0]
+	if rid.Name == want || rid.Obj == nil {
+		return
+	}
+	obj := rid.Obj
+	ast.Inspect(fd, func(n ast.Node) bool {
+		if id, ok := n.(*ast.Ident); ok && id.Obj == obj {
+			id.Name = want
+		}
+		return true
+	})
+}
+
 func findFunc(f *ast.File, recv, name string) *ast.FuncDecl {
 	for _, d := range f.Decls {
 		fd, ok := d.(*ast.FuncDecl)
@@ -96,6 +126,7 @@ func findFunc(f *ast.File, recv, name string) *ast.FuncDecl {
 				t = st.X
 			}
 			if id, ok := t.(*ast.Ident); ok && id.Name == recv {
+				canonicalReceiver(fd, recv)
 				return fd
 			}
 		}
